@@ -8,6 +8,7 @@ import (
 	"io"
 	"reflect"
 	"strings"
+	"time"
 
 	json "github.com/goccy/go-json"
 
@@ -22,6 +23,7 @@ import (
 func init() {
 	work.Register("C09", "c09.chunks", c09Chunks)
 	work.Register("C09", "c09.long", c09Long)
+	work.Register("C09", "c09.longtyped", c09LongTyped)
 	work.Register("C09", "c09.faults", c09Faults)
 	work.Register("C09", "c09.multi", c09Multi)
 	work.Register("C09", "c09.strings", c09Strings)
@@ -420,6 +422,103 @@ func c09Long(c *work.Ctx) {
 					}
 					if c.WantSample() {
 						c.Sample(fmt.Sprintf("%s <- %d-byte document, token %s ending at %d", d.name, len(b), tk, end))
+					}
+					c.EndCase()
+				}
+			}
+		}
+	}
+}
+
+// c09LongTyped: as c09Long, with typed element destinations (each scalar stream decoder has its
+// own scanning loop and its own way of carrying on after a refill): the token of interest ends
+// at offsets 509..514 / 1021..1026 of `[ <spaces> token ]` and of `{"k": <spaces> token }`.
+func c09LongTyped(c *work.Ctx) {
+	type tk struct {
+		tok   string
+		elems []reflect.Type
+	}
+	ints := []reflect.Type{reflect.TypeOf(int(0)), reflect.TypeOf(int8(0)), reflect.TypeOf(int64(0)), reflect.TypeOf(uint(0)), reflect.TypeOf(uint16(0)), reflect.TypeOf(float64(0)), reflect.TypeOf(float32(0)), reflect.TypeOf(stdjson.Number("")), reflect.TypeOf((*int)(nil))}
+	toks := []tk{
+		{"12345", ints}, {"-123", []reflect.Type{reflect.TypeOf(int(0)), reflect.TypeOf(int16(0)), reflect.TypeOf(float64(0)), reflect.TypeOf(stdjson.Number(""))}},
+		{"1234567890123", []reflect.Type{reflect.TypeOf(int64(0)), reflect.TypeOf(uint64(0)), reflect.TypeOf(float64(0))}},
+		{"-12.5e+3", []reflect.Type{reflect.TypeOf(float64(0)), reflect.TypeOf(float32(0)), reflect.TypeOf(stdjson.Number(""))}},
+		{"true", []reflect.Type{reflect.TypeOf(false), reflect.TypeOf((*bool)(nil))}}, {"false", []reflect.Type{reflect.TypeOf(false)}},
+		{"null", []reflect.Type{reflect.TypeOf((*int)(nil)), reflect.TypeOf(""), reflect.TypeOf([]int(nil)), reflect.TypeOf(map[string]int(nil))}},
+		{`"abcdef"`, []reflect.Type{reflect.TypeOf(""), reflect.TypeOf([]byte(nil)), reflect.TypeOf(universe.UT{}), reflect.TypeOf(stdjson.RawMessage(nil))}},
+		{`"QUJDREVG"`, []reflect.Type{reflect.TypeOf([]byte(nil))}},
+		{`"1970-01-01T00:00:01Z"`, []reflect.Type{reflect.TypeOf(time.Time{})}},
+		{`[1,22,333]`, []reflect.Type{reflect.TypeOf([]int(nil)), reflect.TypeOf([3]int{}), reflect.TypeOf([]float64(nil))}},
+		{`{"a":12,"b":"xy"}`, []reflect.Type{reflect.TypeOf(map[string]interface{}(nil)), reflect.TypeOf(struct {
+			A int    `json:"a"`
+			B string `json:"b"`
+		}{})}},
+		{`"12345"`, []reflect.Type{reflect.TypeOf(struct{}{})}}, // placeholder, replaced below by the ,string member form
+	}
+	ends := []int{509, 510, 511, 512, 513, 514, 1021, 1022, 1023, 1024, 1025, 1026}
+	type sQ struct {
+		Q int `json:"q,string"`
+	}
+	for _, t := range toks {
+		for _, et := range t.elems {
+			if et == nil {
+				continue
+			}
+			for _, end := range ends {
+				for _, form := range []string{"array element", "object member"} {
+					var doc string
+					var dt reflect.Type
+					switch {
+					case t.tok == `"12345"` && et.Kind() == reflect.Struct:
+						if form != "object member" {
+							continue
+						}
+						p := end - len(t.tok) - 5
+						doc = `{"q":` + strings.Repeat(" ", p) + t.tok + `}`
+						dt = reflect.TypeOf(sQ{})
+					case form == "array element":
+						p := end - len(t.tok) - 1
+						doc = `[` + strings.Repeat(" ", p) + t.tok + `,` + t.tok + `]`
+						dt = reflect.SliceOf(et)
+					default:
+						p := end - len(t.tok) - 5
+						doc = `{"k":` + strings.Repeat(" ", p) + t.tok + `,"j":` + t.tok + `}`
+						dt = reflect.MapOf(reflect.TypeOf(""), et)
+					}
+					b := []byte(doc)
+					id := fmt.Sprintf("%s <- %s %s ending at %d", dt, form, t.tok, end)
+					if !c.BeginS(id) {
+						continue
+					}
+					buf := bufferOutcome(b, dt, false)
+					whole := streamOutcome(bytes.NewReader(b), dt, false)
+					c.Outcome(c09Verdicts(whole))
+					if buf != whole {
+						c.Violation(fmt.Sprintf("long document, typed : %s of %s : token %s ending at buffer offset %d : %s", form, et, tokenShape(t.tok), end%512, c09Verdicts(buf)+" vs "+c09Verdicts(whole)), id,
+							fmt.Sprintf("Unmarshal %s ; Decoder %s", clipTail([]byte(buf)), clipTail([]byte(whole))))
+					}
+					for _, ps := range []int{1, 3, 7, 511, 512, 513} {
+						got := streamOutcome(&chunkReader{data: b, pieceSize: ps, zeroAt: -1, failAt: -1}, dt, false)
+						c.Count("chunked_decodes", 1)
+						if got != whole {
+							c.Violation(fmt.Sprintf("long document, typed, chunking-dependent : %s of %s : piece size %d : token %s ending at buffer offset %d", form, et, ps, tokenShape(t.tok), end%512), id,
+								fmt.Sprintf("whole %s ; piece size %d gives %s", clipTail([]byte(whole)), ps, clipTail([]byte(got))))
+						}
+					}
+					lo, hi := end-len(t.tok)-3, end+3
+					for k := lo; k <= hi && k < len(b); k++ {
+						if k < 1 {
+							continue
+						}
+						got := streamOutcome(&chunkReader{data: b, cuts: []int{k}, zeroAt: -1, failAt: -1}, dt, false)
+						c.Count("chunked_decodes", 1)
+						if got != whole {
+							c.Violation(fmt.Sprintf("long document, typed, chunking-dependent : %s of %s : cut %s : token ending at buffer offset %d", form, et, tokenAt(b, k), end%512), id,
+								fmt.Sprintf("whole %s ; cut at %d gives %s", clipTail([]byte(whole)), k, clipTail([]byte(got))))
+						}
+					}
+					if c.WantSample() {
+						c.Sample(id)
 					}
 					c.EndCase()
 				}
